@@ -70,14 +70,22 @@ package system
 //@ spec func listsValid(m) = forall t Int :: forall k Int :: has(m, t) && 0 <= k && k < len(m[t]) ==> validSys(m[t][k]) && m[t][k].MetricType == t
 //@ spec func listsDisjoint(m) = forall t Int :: forall u Int :: has(m, t) && has(m, u) && t != u ==> base(m[t]) != base(m[u])
 //@ spec func groupedValid(m) = listsOwned(m) && listsValid(m) && listsDisjoint(m)
+// (kind[k] is the metric type of rules[k] when that rule is valid, -1 otherwise; the list of type t ends up with as
+// many entries as there are valid rules of type t; that each entry is the right rule at the right rank is not proved:
+// the solvers time out on the positional invariant across append's reallocation)
 //@ func buildRuleMap(rules) m
 //@   props C13
 //@   panics never
+//@   let n = len(rules)
+//@   let kind = seqof(k, (0 <= k && k < len(rules) && validSys(rules[k])) ? rules[k].MetricType : 0 - 1)
 //@   ensures[new-map] m != nil && fresh(m)
 //@   ensures[only-valid-rules-grouped-by-metric] groupedValid(m)
+//@   ensures[every-valid-rule-kept] forall t Int :: t >= 0 ==> (has(m, t) <==> countEq(kind, t, n) > 0) && (has(m, t) ==> len(m[t]) == countEq(kind, t, n))
 //@   modifies nothing
 //@   loop 1:
 //@     invariant[new-map] m != nil && fresh(m)
+//@     invariant[counts] forall t Int :: t >= 0 ==> 0 <= countEq(kind, t, #i) && (has(m, t) <==> countEq(kind, t, #i) > 0) && (has(m, t) ==> len(m[t]) == countEq(kind, t, #i))
+//@     invariant[no-negative-key] forall t Int :: t < 0 ==> !has(m, t)
 //@     invariant[lists-owned] listsOwned(m)
 //@     invariant[lists-disjoint] listsDisjoint(m)
 //@     invariant[lists-valid] listsValid(m)
